@@ -1332,7 +1332,7 @@ fn store_worker(run: &Run, sub: usize, n_sub: usize, san: bool) {
 				run.count("a.sweeps", o.sweeps);
 				run.count("a.compactions", o.compactions);
 				run.set_max("max_a_leaves", o.max_leaves);
-				if k <= 2 {
+				if k == 1 {
 					run.sample(json!({"part": "a", "program": idx, "kind": kind.name(), "sweeps": o.sweeps, "compactions": o.compactions, "max_leaves": o.max_leaves}));
 				}
 			}
@@ -2451,6 +2451,14 @@ fn get_desegmenter(run: &Run, src: &Source, rx: &Rx) -> Option<Arc<grin_util::Rw
 	}
 }
 
+/// At most one literal sample per worker process, from every third source (the evidence keeps six).
+fn sample_slot(shard: usize, kind: usize) -> bool {
+	use std::sync::atomic::{AtomicBool, Ordering};
+	static TAKEN: AtomicBool = AtomicBool::new(false);
+	// kind 0: honest segment sync, 1: hostile segment sync, 2: archive
+	shard % 3 == kind && !TAKEN.swap(true, Ordering::SeqCst)
+}
+
 /// One receiver synchronising from segments. Returns true if a full state sync completed.
 fn segment_sync(run: &Run, sc: &Scratch, src: &Source, set: &SegSet, pool: &HostilePool, plan: &Plan, name: &str, p: &mut Prng) -> bool {
 	let rx = match new_receiver(sc, name, src, p) {
@@ -2466,6 +2474,10 @@ fn segment_sync(run: &Run, sc: &Scratch, src: &Source, set: &SegSet, pool: &Host
 		Some(d) => d,
 		None => {
 			run.eval(&format!("{};outcome=desegmenter_unavailable", sig), false);
+			if sample_slot(src.cfg.shard, if plan.hostile { 1 } else { 0 }) {
+				run.sample(json!({"part": part, "shard": src.cfg.shard, "blocks": src.cfg.n_blocks, "archive_height": src.a, "state": src.state_class,
+					"outputs_at_archive": src.n_out, "outcome": "desegmenter_unavailable"}));
+			}
 			rx.close();
 			return false;
 		}
@@ -2604,9 +2616,11 @@ fn segment_sync(run: &Run, sc: &Scratch, src: &Source, set: &SegSet, pool: &Host
 		&format!("{};segs={}/{}/{}/{};hostile_accepted={};outcome={}", sig, set.bitmap.len().min(3), set.output.len().min(9), set.rproof.len().min(9), set.kernel.len().min(9), dl.hostile_accepted.len().min(2), outcome),
 		true,
 	);
+	if sample_slot(src.cfg.shard, if plan.hostile { 1 } else { 0 }) {
 	run.sample(json!({"part": part, "shard": src.cfg.shard, "blocks": src.cfg.n_blocks, "archive_height": src.a, "state": src.state_class, "outputs_at_archive": src.n_out,
 		"unspent_at_archive": src.bm_ref.cardinality(), "heights": format!("{:?}", src.cfg.hts), "segments": [set.bitmap.len(), set.output.len(), set.rproof.len(), set.kernel.len()],
 		"order": plan.order, "hostile_delivered": dl.hostile_delivered, "hostile_refused": dl.hostile_refused, "hostile_accepted": dl.hostile_accepted, "outcome": outcome}));
+	}
 	rx.close();
 	done
 }
@@ -2822,6 +2836,10 @@ fn zip_sync(run: &Run, sc: &Scratch, src: &Source, kit: &ZipKit, name: &str, tip
 		Err(e) => run.inconclusive(&format!("zip feed: {}", e)),
 	}
 	run.eval(&format!("{};outcome={}", sig, if ok { "finalised_equal" } else { "failed" }), true);
+	if sample_slot(src.cfg.shard, 2) {
+		run.sample(json!({"part": "b", "path": "zip", "shard": src.cfg.shard, "blocks": src.cfg.n_blocks, "archive_height": src.a, "state": src.state_class,
+			"archive_bytes": kit.honest.len(), "outcome": if ok { "finalised, equal to the twin, followed the source to the tip" } else { "failed" }}));
+	}
 	rx.close();
 	ok
 }
@@ -2900,6 +2918,9 @@ fn zip_hostile(run: &Run, sc: &Scratch, src: &Source, kit: &ZipKit, variants: &[
 			Ok(false) => {
 				let why = ZIP_LAST.with(|l| l.borrow().clone());
 				refusals += 1;
+				if sample_slot(src.cfg.shard, 2) {
+					run.sample(json!({"part": "c", "path": "zip", "shard": src.cfg.shard, "blocks": src.cfg.n_blocks, "archive_height": src.a, "class": class, "outcome": why}));
+				}
 				run.count(&format!("c.zip_hostile_refused.{}", class), 1);
 				run.count("c.hostile_pieces_refused", 1);
 				run.eval(&format!("{};outcome={}", sig, why), true);
